@@ -707,6 +707,7 @@ package dht
 //@ func (dht/krpc.NodeAddrPort).UDP
 //@   trusted
 //@   option records udp
+//@   ensures a-fresh-address: result != nil
 //@ func (*dht.Server).GetPeers
 //@   trusted
 //@   option records getpeers
@@ -805,9 +806,14 @@ package dht
 //@   ensures one-query-otherwise: !(port == 0 && !impliedPort) ==> count("call:(*dht.Server).Query") == 1
 
 // ---- C19 / C04: the node filter every built-in lookup uses, and the read-only mark of passive nodes ----
+// A UDP address is usable unless its port is 0 or it lies in the IPv4 "this network" block 0.0.0.0/8 (also when
+// written as an IPv4-mapped IPv6 address); nothing else is refused.
 //@ func dht.validNodeAddr
-//@   trusted
 //@   option records validaddr
+//@   requires a-udp-address: typeis(addr, *net.UDPAddr) && unbox(addr, *net.UDPAddr) != nil
+//@   ensures port-zero-is-unusable: unbox(addr, *net.UDPAddr).Port == 0 ==> !result
+//@   ensures this-network-is-unusable: isv4(unbox(addr, *net.UDPAddr).IP) && v4b0(unbox(addr, *net.UDPAddr).IP) == 0 ==> !result
+//@   ensures everything-else-is-usable: unbox(addr, *net.UDPAddr).Port != 0 && !(isv4(unbox(addr, *net.UDPAddr).IP) && v4b0(unbox(addr, *net.UDPAddr).IP) == 0) ==> result
 // addrvalid(a): the netip address inside a is a valid 4- or 16-byte address (everything decoded from compact node
 // info is: C15; the zero value is not)
 //@ spec uf addrvalid(a krpc.NodeAddrPort) bool
